@@ -7,6 +7,8 @@ exceptions of a chosen class on a chosen invocation; ``callsub`` logs the result
 sub-template calls.  The engine's call outcome (returned value with its type / identity, or
 propagated exception class + message) and this event log are compared with the prediction of
 a Python-semantics reference interpreter (vlib/c14_util.Model) for the same abstract tree.
+Every case is compiled once and rendered several times (same or different namespace / loop
+rows): compiled tag objects must not remember anything of an earlier activation.
 """
 import hashlib
 import json
@@ -23,7 +25,13 @@ RULE = ('(1) exhaustive handler grid: handler lists of length <=3 over {E1,E2,E3
         'form/class inside every block kind (in, in-else, with, let, if, else, unless, try body, except, '
         'else, finally, raise body, sub-template, comment), one and two kinds deep, in 7 contexts; '
         '(4) seeded random trees of nested try/raise/return/blocks/sub-templates with fault injection '
-        'on the k-th invocation.  distinct = distinct template sources (+ sub-template sources); '
+        'on the k-th invocation; every such template is compiled once and rendered twice.  '
+        '(5) rerender grid: every handler list around a dtml-raise of a COMPUTED class, one compiled '
+        'template rendered with 6 different classes, and the same inside a loop whose rows carry the class; '
+        '(6) loop grid: per-row data decide whether/what each iteration raises or returns inside a try per '
+        'iteration, all 64 row sequences of length 3 per template; (7) seeded random trees reading '
+        'per-activation data, 3 environments each.  distinct = distinct (template source, sub-template '
+        'sources, environment); '
         'non-trivial = the model executes at least one raise or return, or renders an else/finally block')
 ASSUMPTIONS = ['a dtml-raise name that is neither a builtin nor a zExceptions class raises *some* Exception '
                'subclass (the statement does not fix which); only bare/custom-named handlers surround it',
@@ -64,99 +72,139 @@ def msg_of(e):
     return str(e)
 
 
-class Harness:
-    """Builds the namespace of probes for one case and runs the real template."""
+class Compiled:
+    """One case compiled ONCE (template and sub-templates); render(env) runs the same compiled
+    objects again with the namespace built for that environment and returns what was observed."""
 
-    def __init__(self, HTML):
-        self.HTML = HTML
-
-    def run(self, case):
-        log = []
-        herr = []
-        booms = {}
-        subs = {}
-
-        def bound(md):
-            present = [k for k in ('error_type', 'error_value', 'error_tb') if md.has_key(k)]
-            if not present:
-                return None
-            if 'error_type' not in present or 'error_value' not in present:
-                return ['partial'] + present
-            ev = md.getitem('error_value', 0)
-            return [md.getitem('error_type', 0), type(ev).__name__,
-                    msg_of(ev) if isinstance(ev, BaseException) else repr(ev),
-                    'error_tb' in present]
-
-        def probe(i, md):
-            try:
-                log.append(['p', i, bound(md), len(md._data)])
-            except Exception as e:      # a harness fault must not look like a DTML exception
-                herr.append('probe %s: %r' % (i, e))
-            return '{%s}' % i
-
-        def boom(i, cls, msg, at, md):
-            try:
-                c = booms[i] = booms.get(i, 0) + 1
-                log.append(['b', i, bound(md), len(md._data)])
-                k = U.resolve(cls)
-            except Exception as e:
-                herr.append('boom %s: %r' % (i, e))
-                return ''
-            if at == 0 or c == at:
-                raise k(msg)
-            return '{%s}' % i
-
-        def callsub(key, md):
-            log.append(['sub>', key])
-            try:
-                r = subs[key](None, md)
-            except Exception as e:
-                log.append(['sub<', key, ['exc', type(e).__name__, msg_of(e)]])
-                raise
-            log.append(['sub<', key, ['val', U.enc(r)]])
-            return r if isinstance(r, str) else '<%s>' % type(r).__name__
-
-        def cls(name):
-            return U.resolve(name)
-
-        class Named:
-            """Namespace object rendered by name: the lookup hands it the namespace."""
-
-            def __init__(self, f, *args):
-                self.f = f
-                self.args = args
-
-            def __render_with_namespace__(self, md):
-                return self.f(*(self.args + (md,)))
-
-        ns = {'probe': probe, 'boom': boom, 'callsub': callsub, 'cls': cls,
-              'wobj': W(), 't_true': 1, 't_false': 0,
-              'seq0': [], 'seq1': [1], 'seq2': [1, 2], 'seq3': [1, 2, 3]}
+    def __init__(self, HTML, case):
+        self.case = case
+        self.log = []
+        self.herr = []
+        self.booms = {}
+        self.subs = {}
+        style = self.style = case.get('style', 'name')
+        self.base = {'probe': self.probe, 'boom': self.boom, 'vboom': self.vboom, 'callsub': self.callsub,
+                     'cls': U.resolve, 'wobj': W(), 't_true': 1, 't_false': 0,
+                     'seq0': [], 'seq1': [1], 'seq2': [1, 2], 'seq3': [1, 2, 3]}
+        ns = self.base
         ns.update(U.CUSTOM)
         for k, v in U.RV.items():
             ns['rv_' + k] = v
-        style = case.get('style', 'name')
-        trees = [case['tree']] + list(case.get('subs', {}).values())
-        for tree in trees:
+        for tree in [case['tree']] + list(case.get('subs', {}).values()):
             for n, _ in U.walk(tree):
                 if n[0] == 'probe':
-                    ns['P_' + n[1]] = Named(probe, n[1])
+                    ns['P_' + n[1]] = Named(self.probe, n[1])
                 elif n[0] == 'boom':
-                    ns['X_' + n[1]] = Named(boom, n[1], n[2], n[3], n[4])
+                    ns['X_' + n[1]] = Named(self.boom, n[1], n[2], n[3], n[4])
+                elif n[0] == 'vboom':
+                    ns['X_' + n[1]] = Named(self.vboom, n[1], n[2])
                 elif n[0] == 'sub' and n[2] == 'call':
-                    ns['C_' + n[1]] = Named(callsub, n[1])
+                    ns['C_' + n[1]] = Named(self.callsub, n[1])
         for key, nodes in case.get('subs', {}).items():
-            subs[key] = ns['sub_' + key] = self.HTML(U.to_src(nodes, style))
-        src = U.to_src(case['tree'], style)
-        tmpl = self.HTML(src)
+            self.subs[key] = ns['sub_' + key] = HTML(U.to_src(nodes, style))
+        self.src = U.to_src(case['tree'], style)
+        self.subsrc = sorted((k, U.to_src(v, style)) for k, v in case.get('subs', {}).items())
+        self.tmpl = HTML(self.src)
+
+    # -- probes (namespace callables / objects)
+    def bound(self, md):
+        present = [k for k in ('error_type', 'error_value', 'error_tb') if md.has_key(k)]
+        if not present:
+            return None
+        if 'error_type' not in present or 'error_value' not in present:
+            return ['partial'] + present
+        ev = md.getitem('error_value', 0)
+        return [md.getitem('error_type', 0), type(ev).__name__,
+                msg_of(ev) if isinstance(ev, BaseException) else repr(ev),
+                'error_tb' in present]
+
+    def probe(self, i, md):
+        try:
+            self.log.append(['p', i, self.bound(md), len(md._data)])
+        except Exception as e:      # a harness fault must not look like a DTML exception
+            self.herr.append('probe %s: %r' % (i, e))
+        return '{%s}' % i
+
+    def boom(self, i, cls, msg, at, md):
+        try:
+            c = self.booms[i] = self.booms.get(i, 0) + 1
+            self.log.append(['b', i, self.bound(md), len(md._data)])
+            k = U.resolve(cls)
+        except Exception as e:
+            self.herr.append('boom %s: %r' % (i, e))
+            return ''
+        if at == 0 or c == at:
+            raise k(msg)
+        return '{%s}' % i
+
+    def vboom(self, i, var, md):
+        try:
+            self.log.append(['b', i, self.bound(md), len(md._data)])
+            name = md.getitem('bx_' + var, 0)
+            k = U.resolve(name) if name else None
+        except Exception as e:
+            self.herr.append('vboom %s: %r' % (i, e))
+            return ''
+        if k is not None:
+            raise k('m-' + i)
+        return '{%s}' % i
+
+    def callsub(self, key, md):
+        self.log.append(['sub>', key])
+        try:
+            r = self.subs[key](None, md)
+        except Exception as e:
+            self.log.append(['sub<', key, ['exc', type(e).__name__, msg_of(e)]])
+            raise
+        self.log.append(['sub<', key, ['val', U.enc(r)]])
+        return r if isinstance(r, str) else '<%s>' % type(r).__name__
+
+    # -- one render
+    def render(self, env):
+        self.log = []
+        self.herr = []
+        self.booms = {}
+        ns = dict(self.base)
+        if env:
+            ns.update(conv_env(env))
         exc = None
         try:
-            r = tmpl(None, ns)
+            r = self.tmpl(None, ns)
             outcome = ['val', U.enc(r)]
         except Exception as e:
             exc = e
             outcome = ['exc', type(e).__name__, msg_of(e)]
-        return outcome, log, herr, exc, src
+        return outcome, self.log, self.herr, exc
+
+
+class Named:
+    """Namespace object rendered by name: the lookup hands it the namespace."""
+
+    def __init__(self, f, *args):
+        self.f = f
+        self.args = args
+
+    def __render_with_namespace__(self, md):
+        return self.f(*(self.args + (md,)))
+
+
+def conv_env(env):
+    """Environment (JSON) -> namespace entries; a variable whose value is None is not defined."""
+    out = {}
+    for k, v in env.items():
+        if v is None:
+            continue
+        kind, var = k.split('_', 1)
+        if kind == 'cv':
+            out[k] = U.resolve(v)
+            out['cn_' + var] = v
+        elif kind == 'dv':
+            out[k] = U.RV[v]
+        elif kind == 'rows':
+            out[k] = [conv_env(r) for r in v]
+        else:
+            out[k] = v
+    return out
 
 
 # ---------------------------------------------------------------- comparison
@@ -238,30 +286,33 @@ def case_key(case):
     return '%s_%s' % (case.get('part', 'case'), h)
 
 
-def check_case(ctx, harness, case, tally=True):
-    spec = U.Model(case, 'propagate', 'propagate')
+def check_render(ctx, comp, case, env, ri, varied, tally):
+    """One render of the compiled case under `env`, compared with the model.  True = agrees."""
+    spec = U.Model(case, 'propagate', 'propagate', env)
     m_out, m_trace = spec.run()
     models = [('spec', m_out, m_trace)]
     if U.has_fallible_raise_body(case):
-        alt = U.Model(case, 'mask', 'propagate')
-        a_out, a_trace = alt.run()
+        a_out, a_trace = U.Model(case, 'mask', 'propagate', env).run()
         if (a_out, a_trace) != (m_out, m_trace):
             models.append(('spec, raise-body exception replaced', a_out, a_trace))
-            ctx.count('cases where the statement leaves two behaviours open')
-    outcome, log, herr, exc, src = harness.run(case)
-    subsrc = sorted((k, U.to_src(v, case.get('style', 'name'))) for k, v in case.get('subs', {}).items())
+            if tally:
+                ctx.count('cases where the statement leaves two behaviours open')
+    outcome, log, herr, exc = comp.render(env)
+    for k, v in spec.varied.items():
+        varied.setdefault(k, []).extend(v)
     st = spec.stats
-    nontrivial = bool(sum(v for k, v in st.items()
-                          if k.startswith(('raise ', 'return value', 'finally:', 'try: else'))))
-    ctx.case((src, subsrc), nontrivial)
+    if tally:
+        nontrivial = bool(sum(v for k, v in st.items()
+                              if k.startswith(('raise ', 'return value', 'finally:', 'try: else'))))
+        ctx.case((comp.src, comp.subsrc, json.dumps(env, sort_keys=True) if env else None), nontrivial)
     if herr:
         ctx.inconclusive('harness fault inside a probe: %s' % herr[0])
-        return
+        return True
+    ctx.count('monitor:outcome comparisons')
+    ctx.count('monitor:probe events compared', len(log))
+    if ri:
+        ctx.count('monitor:comparisons on a 2nd..nth render of one compiled template')
     if tally:
-        part = case.get('part', '?')
-        ctx.count('cases:' + part)
-        ctx.count('monitor:outcome comparisons')
-        ctx.count('monitor:probe events compared', len(log))
         for k, v in st.items():
             ctx.table('semantics', k, v)
         for what in ('return', 'raise'):
@@ -289,51 +340,124 @@ def check_case(ctx, harness, case, tally=True):
     mech = None
     if U.has_return_in_raise_body(case):
         for pe in ('propagate', 'mask'):
-            d_out, d_trace = U.Model(case, pe, 'mask').run()
+            d_out, d_trace = U.Model(case, pe, 'mask', env).run()
             if not diff(d_out, d_trace, outcome, log, exc):
                 # exactly what "the raise tag swallows a return rendered in its body and raises its
                 # own exception with a placeholder message" predicts, and nothing else is off
                 mech = MECH_RET_IN_RAISE
                 break
-    ctx.violation('; '.join(best[:4]), case, mech=mech, key=case_key(case),
-                  detail={'source': src, 'subs': dict(subsrc), 'engine_outcome': outcome,
+    rcase = dict(case)
+    if case.get('renders'):
+        rcase['renders'] = case['renders'][:ri + 1]     # earlier renders may have left state behind
+    else:
+        rcase['repeat'] = ri + 1
+    what = '; '.join(best[:4])
+    if ri:
+        what = 'render #%d of the same compiled template: %s' % (ri + 1, what)
+    ctx.violation(what, rcase, mech=mech, key=case_key(rcase),
+                  detail={'source': comp.src, 'subs': dict(comp.subsrc), 'environment': env,
+                          'render_index': ri, 'engine_outcome': outcome,
                           'model_outcome': m_out, 'engine_events': log[:60], 'model_events': m_trace[:60]})
     return False
 
 
+def check_case(ctx, HTML, case):
+    """Compile once, render once per environment (cases without environments are rendered
+    `repeat` times, default twice: a compiled template must not remember anything of a render)."""
+    comp = Compiled(HTML, case)
+    ctx.count('cases:' + case.get('part', '?'))
+    envs = case.get('renders') or [None] * int(case.get('repeat', 2))
+    varied = {}
+    ok = True
+    for ri, env in enumerate(envs):
+        tally = bool(case.get('renders')) or ri == 0
+        if not check_render(ctx, comp, case, env, ri, varied, tally):
+            ok = False
+            break                       # later renders of a template already off are not informative
+    # one tag object, several activations, different results: the situation in which per-render
+    # data remembered by a compiled tag becomes visible
+    kinds = {'vraise': 'computed raise', 'vreturn': 'data return', 'vboom': 'data fault', 'try': 'try'}
+    seen = set()
+    for tree in [case['tree']] + list(case.get('subs', {}).values()):
+        for n, _ in U.walk(tree):
+            v = varied.get(id(n))
+            if v and len(set(v)) > 1 and n[0] in kinds and n[0] not in seen:
+                seen.add(n[0])
+                ctx.count('varied:cases where one %s tag object gave different results' % kinds[n[0]])
+                if n[0] in ('vraise', 'try') and v[0] != v[1]:
+                    ctx.count('varied:%s differs between 1st and 2nd activation' % kinds[n[0]])
+    return ok, comp
+
+
 # ---------------------------------------------------------------- workload
+ANCHORS = [('Try.render_try_except', 'DocumentTemplate.DT_Try', 'Try.render_try_except'),
+           ('Try.render_try_finally', 'DocumentTemplate.DT_Try', 'Try.render_try_finally'),
+           ('Try.find_handler', 'DocumentTemplate.DT_Try', 'Try.find_handler'),
+           ('Raise.render', 'DocumentTemplate.DT_Raise', 'Raise.render'),
+           ('ReturnTag.render', 'DocumentTemplate.DT_Return', 'ReturnTag.render'),
+           ('String.__call__', 'DocumentTemplate.DT_String', 'String.__call__')]
+# helpers whose presence is an implementation detail: counted when there, never required
+OPTIONAL_ANCHORS = [('Try.match_base', 'DocumentTemplate.DT_Try', 'Try.match_base')]
+
+
+def install_reach(ctx):
+    """Reach counters on the anchor functions.  Anything missing (renamed / removed by a
+    refactoring) is a counter and, for the required anchors, an inconclusive reason in finish();
+    it never stops the behavioural comparison."""
+    import importlib
+    try:
+        from vlib.reach import Reach
+        reach = Reach()
+    except Exception as e:
+        ctx.count('reach:unavailable')
+        return None
+    for label, modname, path in ANCHORS + OPTIONAL_ANCHORS:
+        try:
+            obj = importlib.import_module(modname)
+            for a in path.split('.'):
+                obj = getattr(obj, a)
+            reach.watch(label, obj)
+        except Exception:
+            ctx.count('anchor missing:' + label)
+    try:
+        reach.start()
+    except Exception:
+        ctx.count('reach:unavailable')
+        return None
+    return reach
+
+
 def run(ctx, spec):
     from DocumentTemplate.DT_HTML import HTML
-    from DocumentTemplate import DT_Try, DT_Raise, DT_Return, DT_String
-    from vlib.reach import Reach
-    reach = Reach()
-    reach.watch('Try.render_try_except', DT_Try.Try.render_try_except)
-    reach.watch('Try.render_try_finally', DT_Try.Try.render_try_finally)
-    reach.watch('Try.find_handler', DT_Try.Try.find_handler)
-    reach.watch('Try.match_base', DT_Try.Try.match_base)
-    reach.watch('Raise.render', DT_Raise.Raise.render)
-    reach.watch('ReturnTag.render', DT_Return.ReturnTag.render)
-    reach.watch('String.__call__', DT_String.String.__call__)
-    reach.start()
-    h = Harness(HTML)
+    reach = install_reach(ctx)
     quick = ctx.tier == 'quick'
     shard, nsh = ctx.shard, ctx.nshards
     sampled = {}
-
     nstyle = [0]
+    nfault = [0]
 
     def do(case):
         # every 6th case calls its probes from expressions, the others render them by name
         nstyle[0] += 1
         case['style'] = 'expr' if nstyle[0] % 6 == 0 else 'name'
         ctx.count('probe style:' + case['style'])
-        ok = check_case(ctx, h, case)
+        try:
+            ok, comp = check_case(ctx, HTML, case)
+        except Exception:
+            # a fault of the harness / model on one case must not stop the workload
+            import traceback
+            nfault[0] += 1
+            if nfault[0] <= 3:
+                ctx.inconclusive('harness error on a %s case: %s' % (case.get('part'), traceback.format_exc()[-700:]))
+            ctx.count('harness errors on single cases')
+            return
         part = case['part']
         sampled[part] = sampled.get(part, 0) + 1
-        if ok and ctx.shard < 2 and sampled[part] == 12 + 9 * ctx.shard:
-            outcome, log, _, _, src = h.run(case)
-            ctx.sample({'part': case['part'], 'source': src,
-                        'subs': {k: U.to_src(v, case['style']) for k, v in case['subs'].items()},
+        if ok and ctx.shard < 2 and sampled[part] == 3 + 2 * ctx.shard:
+            env = (case.get('renders') or [None])[-1]
+            outcome, log, _, _ = comp.render(env)
+            ctx.sample({'part': part, 'source': comp.src, 'subs': dict(comp.subsrc), 'environment': env,
+                        'renders_of_this_template': len(case.get('renders') or [0, 0]),
                         'engine_outcome': outcome, 'engine_events': [e[:3] for e in log[:12]]})
 
     # (1) handler grid
@@ -376,28 +500,55 @@ def run(ctx, spec):
                         ctx.count('placement: two kinds deep')
                         do(U.build_placement([k1, k2], act, cx))
     # (4) seeded random trees
-    nrand = (6000 if quick else 80000) // nsh
+    nrand = (6000 if quick else 70000) // nsh
     gen = U.RandomTrees(ctx.rng, 3 if quick else 4, 2 if quick else 3)
     for _ in range(nrand):
         case = gen.case()
         ctx.table('random trees by try nesting depth', U.try_depth(case['tree']))
         do(case)
-    reach.stop()
-    reach.report(ctx)
+    # (5) one compiled template, many environments: computed classes around every handler list
+    for i, case in enumerate(U.grid_rerender_cases()):
+        if i % nsh == shard:
+            do(case)
+    # (6) loops whose rows decide what each iteration's try sees
+    for i, case in enumerate(U.grid_loop_cases()):
+        if i % nsh == shard:
+            do(case)
+    # (7) seeded random trees reading per-activation data, several environments each
+    nrand = (2400 if quick else 30000) // nsh
+    gen = U.RandomVarTrees(ctx.rng, 3 if quick else 4, 2 if quick else 3)
+    for _ in range(nrand):
+        do(gen.case(3))
+    if reach is not None:
+        try:
+            reach.stop()
+            reach.report(ctx)
+        except Exception:
+            ctx.count('reach:unavailable')
 
 
 def finish(agg):
     c = agg['counters']
     t = agg['tables']
     inc = []
-    for r in ('reach:Try.render_try_except', 'reach:Try.render_try_finally', 'reach:Try.find_handler',
-              'reach:Try.match_base', 'reach:Raise.render', 'reach:ReturnTag.render',
-              'reach:String.__call__'):
-        if not c.get(r):
-            inc.append('anchor never entered: ' + r)
+    # (the driver reports violations before inconclusive reasons: a missing anchor only matters
+    #  when the behavioural comparison found nothing)
+    for label, _, _ in ANCHORS:
+        if c.get('anchor missing:' + label):
+            inc.append('anchor function not found (renamed or removed?): ' + label)
+        elif not c.get('reach:' + label):
+            inc.append('anchor never entered: ' + label)
     for k in ('monitor:outcome comparisons', 'monitor:probe events compared',
-              'monitor:probes seeing error_type bound', 'cases:handler-grid', 'cases:finally-grid',
-              'cases:placement', 'cases:random'):
+              'monitor:probes seeing error_type bound',
+              'monitor:comparisons on a 2nd..nth render of one compiled template',
+              'cases:handler-grid', 'cases:finally-grid', 'cases:placement', 'cases:random',
+              'cases:rerender-grid', 'cases:loop-grid', 'cases:random-vars',
+              'varied:cases where one computed raise tag object gave different results',
+              'varied:cases where one data return tag object gave different results',
+              'varied:cases where one data fault tag object gave different results',
+              'varied:cases where one try tag object gave different results',
+              'varied:computed raise differs between 1st and 2nd activation',
+              'varied:try differs between 1st and 2nd activation'):
         if not c.get(k):
             inc.append('deciding counter is zero: ' + k)
     sem = t.get('semantics', {})
@@ -423,9 +574,11 @@ def finish(agg):
                          'handler_grid_points': sum(1 for _ in U.grid_handler_cases()),
                          'explanation': 'handler grid, try/finally grid and one-deep placement grid are '
                                         'exhaustive in both tiers; the two-deep placement grid is exhaustive '
-                                        'in thorough and a 1/16 stride in quick; random trees are seeded extras'}}
+                                        'in thorough and a 1/16 stride in quick; the rerender and loop grids '
+                                        '(one compiled template, many environments / rows) are exhaustive '
+                                        'in both tiers; random trees are seeded extras'}}
 
 
 def replay(ctx, rep):
     from DocumentTemplate.DT_HTML import HTML
-    check_case(ctx, Harness(HTML), rep['case'])
+    check_case(ctx, HTML, rep['case'])
